@@ -285,11 +285,12 @@ def traced(model):
     return fx.GraphModule(tr.root, g)
 
 
-def struct_check(pit, exp, prog):
-    """summary() vs exported hyper-parameters"""
+def struct_check(pit, exp, prog, summ=None):
+    """summary() vs exported hyper-parameters (summ: a summary taken by the caller, e.g. BEFORE the export; default: taken now)"""
     import torch.nn as nn
     bad = []
-    summ = pit.summary()
+    if summ is None:
+        summ = pit.summary()
     for name, layer in pit_layers(pit):
         s = summ[name]
         try:
